@@ -183,6 +183,10 @@ impl<K: Kind> D<K> {
             if got != want {
                 let prop = if want { "C01" } else { exact };
                 ctx.fail(prop, format!("{} query({})={} but abstract content says {} after {}", K::NAME, x, got, want, what));
+                if want {
+                    // a stored class that is not reported is also a failure of exact (multi)set semantics
+                    ctx.fail(exact, format!("{} query({}) is false although a copy of its class is stored (after {})", K::NAME, x, what));
+                }
                 if what == "union" {
                     ctx.fail("C06", format!("{} after union: query({})={} but the two streams together say {}", K::NAME, x, got, want));
                 }
